@@ -988,6 +988,16 @@ func compareEnumDefinitions(newEnum, oldEnum *EnumDefinition, context *Evolution
 }
 
 func compareTypes(newType, oldType Type, context *EvolutionContext) TypeChange {
+	// A scalar GeneralizedType with a single case is another spelling of that case's type:
+	// `int?*` is parsed as a vector whose only case is `int?`, `!vector {items: [null, int]}`
+	// as a vector with the two cases.
+	if gt, ok := newType.(*GeneralizedType); ok && gt != nil && gt.Dimensionality == nil && len(gt.Cases) == 1 {
+		return compareTypes(gt.Cases[0].Type, oldType, context)
+	}
+	if gt, ok := oldType.(*GeneralizedType); ok && gt != nil && gt.Dimensionality == nil && len(gt.Cases) == 1 {
+		return compareTypes(newType, gt.Cases[0].Type, context)
+	}
+
 	switch newType := newType.(type) {
 	case *SimpleType:
 		switch oldType := oldType.(type) {
